@@ -4,8 +4,8 @@ corr   : (A) region requests: the Lean `validate` / offsets / output blocks / de
              (drivers/C11.lean) vs the real `cubed.store(..., regions=..., compute=False)` op and its execution on the
              single-threaded executor, whole target read back with plain zarr;
          (B) argument pairing of `store` (length checks) vs `pairUp`;
-         (C) lists of pairs with repeated / dependent lazy sources vs `storeOutcome` (rejected k / late error / which
-             targets are written, which never created);
+         (C) lists of pairs with repeated / dependent lazy sources vs `storeOutcome` (rejected k / which targets are written, which never created;
+             `broken` = no prediction);
          (D) the no-region identity copy into an existing array of another length vs `runCopy`.
 oracle : independent of the model: sources x targets x regions x eager/lazy x executors x lists of pairs, expectation
          computed with NumPy (`target[region] = source`, sentinel elsewhere); "rejected" = ValueError before the
@@ -26,13 +26,14 @@ ASSUMPTIONS = [
     "is written whole by one `__setitem__` (compared on every executed region case: final target contents and error kind)",
     "zarr OrthogonalIndexer / SliceDimIndexer iteration (chunks hit by a slice, empty projections skipped) as modelled by "
     "`hitBlocks` (compared with `list(pipeline.mappable)` on every accepted region case)",
-    "an op that is re-targeted in place writes its whole output to the new location (C05/C01), and the computation raises "
-    "when an op reads an array that was never created (compared on every generated pair list)",
+    "an op that is re-targeted in place writes its whole output to the new location (C05/C01) (compared on every generated "
+    "pair list the model makes a prediction for)",
     "the single-threaded executor runs the tasks of an op in mappable order and stops at the first failing task",
 ]
 TRUSTED = [
     "modelled not verified: NumPy broadcasting inside zarr's chunk merge; Python slice.indices; the order in which "
-    "compute_arrays merges the per-array plans (only its observable effect - ArrayNotFoundError - is modelled as `lateError`)",
+    "compute_arrays merges the per-array plans: when a re-targeted lazy source is still read at its old location the model "
+    "answers `broken` (no prediction; the implementation raises midway, computes from fill values, or survives by luck)",
 ]
 
 VERDICT_MSG = {"does not align with target chunks": "misaligned", "does not match region shape": "shape"}
@@ -400,8 +401,8 @@ def prep_store(ctx, env, n):
                 p["accepted"] = all((r[0] % c == 0) and (r[1] % c == 0 or r[1] == 2 * s)
                                     for r, c, s in zip(p["region"], cs, case["shape"]))
         info = cc.pool_info(case, arrs)
-        lazy, deps, ident, comp = info["lazy"], info["deps"], info["ident"], info["computed"]
-        tab = " ".join("%d:%d:%s:%d" % (i, int(lazy[i]), ".".join(str(ident[d]) for d in deps[i]), int(comp[i]))
+        lazy, deps, ident = info["lazy"], info["deps"], info["ident"]
+        tab = " ".join("%d:%d:%s" % (i, int(lazy[i]), ".".join(str(ident[d]) for d in deps[i]))
                        for i in range(len(arrs)) if ident[i] == i)
         prs = " ".join("%d:%d:%d:%d" % (ident[p["src"]], 100 + k, int(p["region"] is not None), int(p["accepted"]))
                        for k, p in enumerate(case["pairs"]))
@@ -437,6 +438,11 @@ def check_store(ctx, env, prepared, reqs, ans):
             impl = "done " + " ".join(marks)
         ctx.count({"store": rq, "impl": impl}, nontrivial=len(case["pairs"]) > 1, kind="store:" + impl.split(" ")[0])
         ctx.traces += 1
+        if model == "broken":
+            # outside the model's envelope (a re-targeted lazy source is still read at its old location): no prediction;
+            # what the implementation does there (raise midway / fill values / by luck nothing) is recorded only
+            ctx.dist["store-broken->" + impl.split(" ")[0] + ("-all-written" if impl.startswith("done") and set(impl.split(" ")[1:]) <= {"w"} else "")] += 1
+            continue
         if impl != model:
             ctx.disagree("StoreSem.storeOutcome = store loop over _store_array + compute_arrays",
                          {"request": rq, "oracle_case": run}, model, impl)
@@ -735,6 +741,48 @@ WITNESSES = [
 ]
 
 
+def flavours(case, info):
+    """labels for the evidence's input distribution: source kind, target kind, region kind of every pair"""
+    out = []
+    if len(case["pairs"]) > 1:
+        out.append("pairs:%d" % len(case["pairs"]))
+        srcs = [info["ident"][p["src"]] for p in case["pairs"]]
+        if len(set(srcs)) < len(srcs):
+            out.append("pairs:repeated-source")
+    for p in case["pairs"]:
+        out.append("source:" + case["pool"][p["src"]]["op"])
+        t = p["target"]
+        if t["kind"] != "array":
+            out.append("target:" + t["kind"])
+        elif t.get("shards"):
+            out.append("target:sharded")
+        elif list(t["chunks"]) == info["src_chunks"][p["src"]]:
+            out.append("target:array-same-chunks" + ("-reopened" if t.get("reopen") else ""))
+        else:
+            out.append("target:array-other-chunks")
+        r = p["region"]
+        if r is None:
+            out.append("region:none")
+        elif all(tuple(x) == (None, None, None) for x in r):
+            out.append("region:full")
+        elif t["kind"] != "array":
+            out.append("region:into-created-target")
+        elif len(r) < len(t["shape"]):
+            out.append("region:short-tuple")
+        elif any(x[2] not in (None, 1) for x in r):
+            out.append("region:stepped")
+        elif any((x[0] is not None and x[0] < 0) or (x[1] is not None and x[1] < 0) for x in r):
+            out.append("region:negative-bound")
+        elif any((x[0] is not None and x[0] % c) or (x[1] is not None and x[1] % c and x[1] != n)
+                 for x, c, n in zip(r, t["chunks"], t["shape"])):
+            out.append("region:misaligned")
+        elif any(len(range(*slice(*x).indices(n))) != m for x, n, m in zip(r, t["shape"], case["shape"])):
+            out.append("region:wrong-shape")
+        else:
+            out.append("region:aligned")
+    return out
+
+
 def oracle_one(ctx, env, case, label="oracle"):
     try:
         res = cc.run_case(env, case)
@@ -747,6 +795,8 @@ def oracle_one(ctx, env, case, label="oracle"):
     ctx.count({label: case}, nontrivial=nontrivial, kind="%s:%s:%s" % (label, kinds, res["status"]))
     ctx.dist["executor:" + case["executor"]] += 1
     ctx.dist["mode:" + case["api"] + "-" + case["compute"]] += 1
+    for fl in flavours(case, res["info"]):
+        ctx.dist[fl] += 1
     if res["failures"]:
         small, sres = cc.shrink(env, case, res)
         key = cc.classify(small, sres["info"])
